@@ -32,6 +32,26 @@ type RFCase struct {
 	EOFWarning bool   `json:"eof_warning,omitempty"`
 	Absent     bool   `json:"absent,omitempty"`
 	Siblings   bool   `json:"siblings,omitempty"`
+	// link faults (C11 use of this engine): up to two, scalar fields keep the case comparable
+	F1Kind string `json:"f1_kind,omitempty"`
+	F1At   int    `json:"f1_at,omitempty"`
+	F1A    int    `json:"f1_a,omitempty"`
+	F1B    int    `json:"f1_b,omitempty"`
+	F2Kind string `json:"f2_kind,omitempty"`
+	F2At   int    `json:"f2_at,omitempty"`
+	F2A    int    `json:"f2_a,omitempty"`
+	F2B    int    `json:"f2_b,omitempty"`
+}
+
+func (c RFCase) faults() []term.Fault {
+	var fs []term.Fault
+	if c.F1Kind != "" {
+		fs = append(fs, term.Fault{At: c.F1At, Kind: c.F1Kind, A: c.F1A, B: c.F1B})
+	}
+	if c.F2Kind != "" {
+		fs = append(fs, term.Fault{At: c.F2At, Kind: c.F2Kind, A: c.F2A, B: c.F2B})
+	}
+	return fs
 }
 
 type ReadFileEngine struct{}
@@ -151,6 +171,47 @@ func (ReadFileEngine) Gen(prop, tier string, seed uint64, yield func(c any) bool
 	if tier == "thorough" {
 		n = 3000000
 	}
+	if prop == "C11" {
+		// the same reads with one or two link faults at a seeded exchange of the read: the result must be the file or an error
+		n = 16000
+		if tier == "thorough" {
+			n = 1500000
+		}
+		rng := core.NewRng(core.SubSeed(seed, "readfile-faults", tier))
+		for i := 0; i < n; i++ {
+			c := genRF(rng, i)
+			c.Absent = false
+			if c.ContentLen > 3000 && rng.Chance(4, 5) {
+				c.ContentLen = rng.Range(0, 3000)
+			}
+			if c.MaxLe < 16 && c.ContentLen > 600 {
+				c.MaxLe = core.Pick(rng, []int{64, 100, 128, 255, 256})
+			}
+			chunk := c.MaxLe
+			if chunk > 256 && c.NoExtLen {
+				chunk = 256
+			}
+			for _, lim := range []int{c.MaxResp, c.LeCap} {
+				if lim > 0 && lim < chunk {
+					chunk = lim
+				}
+			}
+			est := 2 + (c.ContentLen+8)/chunk + 1
+			v := core.Pick(rng, faultVariants)
+			if rng.Chance(1, 3) {
+				v = faultVariant{"resp_oversize", core.Pick(rng, []int{1, 2, 5, 16, 300}), rng.Intn(3)}
+			}
+			c.F1Kind, c.F1At, c.F1A, c.F1B = v.kind, rng.Intn(est+1), v.a, v.b
+			if rng.Chance(1, 4) {
+				v2 := core.Pick(rng, faultVariants)
+				c.F2Kind, c.F2At, c.F2A, c.F2B = v2.kind, rng.Intn(est+1), v2.a, v2.b
+			}
+			if !yield(c) {
+				return
+			}
+		}
+		return
+	}
 	rng := core.NewRng(core.SubSeed(seed, "readfile", tier))
 	for i := 0; i < n; i++ {
 		if !yield(genRF(rng, i)) {
@@ -169,6 +230,13 @@ func (ReadFileEngine) Shrink(c any) []any {
 			out = append(out, y)
 		}
 	}
+	add(func(y *RFCase) { y.F2Kind, y.F2At, y.F2A, y.F2B = "", 0, 0, 0 })
+	add(func(y *RFCase) {
+		if y.F2Kind != "" {
+			y.F1Kind, y.F1At, y.F1A, y.F1B = y.F2Kind, y.F2At, y.F2A, y.F2B
+			y.F2Kind, y.F2At, y.F2A, y.F2B = "", 0, 0, 0
+		}
+	})
 	add(func(y *RFCase) { y.Siblings = false })
 	add(func(y *RFCase) { y.EOFWarning = false })
 	add(func(y *RFCase) { y.NoExtLen = false })
@@ -222,7 +290,8 @@ func (ReadFileEngine) Run(prop string, ci any) *core.Outcome {
 	b := chip.DefaultBehaviour()
 	b.MaxResp, b.ShortMode, b.ShortFixed, b.LeCap, b.ExtLen, b.EOFWarning = c.MaxResp, c.ShortMode, c.ShortFixed, c.LeCap, !c.NoExtLen, c.EOFWarning
 	ch := chip.New(p, b, core.NewRng(core.SubSeed(c.Seed, "chip")))
-	link := term.NewLink(ch, nil, out)
+	faults := c.faults()
+	link := term.NewLink(ch, faults, out)
 	link.MaxExchanges = 5000
 	nfc := iso7816.NewNfcSession(link)
 	nfc.SetMaxLe(c.MaxLe)
@@ -258,6 +327,57 @@ func (ReadFileEngine) Run(prop string, ci any) *core.Outcome {
 	sigBase := fmt.Sprintf("total=%d", total)
 	if total > 32767 {
 		sigBase = "total>32767"
+	}
+	if len(faults) > 0 {
+		// C11 use: the link misbehaved; the only acceptable results are the chip's file, "not found" or an error
+		kinds := ""
+		for _, f := range faults {
+			kinds += f.Kind + "+"
+		}
+		switch {
+		case pan != nil:
+			out.Violate("C11", "panic", "readfile/"+kinds, "ReadFile panicked under link faults %v: %v", faults, pan)
+		case link.Overrun:
+			out.Violate("C11", "no-termination", "readfile/"+kinds, "more than %d exchanges for one file under link faults %v", link.MaxExchanges, faults)
+		case err == nil && data != nil && !bytes.Equal(data, file):
+			// Under secure messaging every alteration is detectable. In the clear the terminal can only notice a
+			// response that carries more data than the command asked for; anything else is beyond any terminal.
+			detectable := c.Suite != ""
+			onlyNonAltering := true
+			for _, kind := range link.FaultAt {
+				switch kind {
+				case "resp_oversize", "resp_lost", "cmd_lost", "resp_status", "chip_power_cycle", "link_dead_from":
+				default:
+					onlyNonAltering = false // e.g. a garbled retry after the rejected oversize response: undetectable in the clear
+				}
+			}
+			for k, kind := range link.FaultAt {
+				if !onlyNonAltering {
+					break
+				}
+				if kind != "resp_oversize" || k >= len(link.Cmds) || k >= len(link.Delivered) {
+					continue
+				}
+				if p, perr := chip.ParseCAPDU(link.Cmds[k]); perr == nil && p.INS == 0xB0 && p.HasLe && len(link.Delivered[k])-2 > p.Le {
+					detectable = true
+				}
+			}
+			if detectable {
+				out.Violate("C11", "file-differs", "readfile/"+kinds, "ReadFile (suite %q, maxLe %d) returned %d bytes that differ from the chip's %d-byte file under link faults %v", c.Suite, c.MaxLe, len(data), len(file), faults)
+			} else {
+				out.Probe("clear_read_altered_undetectably")
+			}
+		}
+		if len(link.FaultAt) == 0 {
+			out.Discarded = "fault-did-not-fire"
+			return out
+		}
+		oc := "error"
+		if err == nil {
+			oc = "ok"
+		}
+		out.Key = fmt.Sprintf("rf|%s|sm=%v|%s|le=%d", kinds, c.Suite != "", oc, c.MaxLe)
+		return out
 	}
 	switch {
 	case pan != nil:
